@@ -11,7 +11,9 @@ SPEC_MODE = "oracle"
 KEEP_PREFIX = 1
 SIZES = {"quick": 1500, "thorough": 40000}
 BATCH = 1500
-RULE = ("one flow rule (WarmUp+Reject 72%, MemoryAdaptive+Reject 22%, invalid 6%) on one resource; thresholds from "
+RULE = ("one flow rule (WarmUp+Reject 72%, MemoryAdaptive+Reject 22%, invalid 6%) on one resource, in about a third of the cases reloaded "
+        "1-4 times between demand phases with exactly one field changed (threshold, period, cold factor, statistic interval; each water mark, each "
+        "memory threshold), unchanged, made invalid and restored, or switched to the other strategy and back; thresholds from "
         "{0, small integers, fractions, cold-factor boundaries +-, medium, large}, periods 1..60 s, cold factors {0(default),2..10,1(invalid)}, "
         "StatIntervalInMs from the reusable views {0,500,1000,2000,5000,10000}; demand = phases of saturating per-second bursts, "
         "sub-second streams, steady single-token demand, idle gaps (short / longer than the refill time), optional traffic before the "
@@ -42,13 +44,91 @@ def pick_T(rng, cf):
     return float(rng.choice([500, 1000, 2500]))
 
 
-def demand(rng, ops, now, T, secs_hint, big):
-    """append demand phases to ops, return (now, kinds)"""
+IVS = [0, 0, 0, 0, 0, 0, 1000, 500, 2000, 5000, 10000]
+
+
+def reload_wu(rng, ops, cur):
+    """reload the resource's warm-up rule with exactly one field changed (or none); returns the kind.
+    Kept out: an identical reload / a reload to the explicit default when the bound rule had its cold factor
+    defaulted (that is C14's finding normalised-rule-reload / warmup-reload-resets, not this property)."""
+    kinds = ["T", "T", "p", "cf", "iv", "same", "invalid", "to-ma"]
+    k = rng.choice(kinds)
+    new = dict(cur)
+    if k == "same":
+        if cur["cf"] <= 1:
+            k = "T"
+    if k == "T":
+        while True:
+            t = rng.choice([cur["T"] * 2, cur["T"] + 1, cur["T"] / 2, cur["T"] + 0.5, pick_T(rng, cur["cf"])])
+            if abs(t - cur["T"]) >= 0.001:
+                break
+        new["T"] = float(t)
+    elif k == "p":
+        new["p"] = rng.choice([x for x in [1, 2, 3, 5, 10, 20, 30, 60] if x != cur["p"]])
+    elif k == "cf":
+        new["cf"] = rng.choice([x for x in [2, 3, 4, 5, 7, 10] if x != cur["cf"] and not (cur["cf"] <= 1 and x == 3)])
+    elif k == "iv":
+        new["iv"] = rng.choice([x for x in [0, 500, 1000, 2000, 5000, 10000] if x != cur["iv"]])
+    if k == "invalid":
+        ops.append(rng.choice([f"load wu {fb(cur['T'])} 0 {cur['cf']} {cur['iv']}", f"load wu {fb(cur['T'])} {cur['p']} 1 {cur['iv']}"]))
+        # the resource is now unprotected; put the rule back a little later
+        ops.append(f"req {rng.choice([1, 30])} 1")
+        ops.append(f"load wu {fb(cur['T'])} {cur['p']} {cur['cf']} {cur['iv']}")
+        return "reload-invalid"
+    if k == "to-ma":
+        ops.append("load ma 10 2 1000 2000 0")
+        ops.append(f"mem {rng.choice([-1, 500, 1500, 2500])}")
+        ops.append(f"req 12 1")
+        ops.append(f"load wu {fb(cur['T'])} {cur['p']} {cur['cf']} {cur['iv']}")
+        return "reload-kind"
+    cur.update(new)
+    ops.append(f"load wu {fb(cur['T'])} {cur['p']} {cur['cf']} {cur['iv']}")
+    return "reload-" + k
+
+
+def reload_ma(rng, ops, cur):
+    """reload the memory-adaptive rule with exactly one field changed (each water mark, each threshold, the
+    statistic interval), unchanged, or invalid"""
+    k = rng.choice(["lowT", "highT", "lowM", "highM", "highM", "iv", "same", "invalid"])
+    new = dict(cur)
+    if k == "lowT":
+        new["lowT"] = cur["lowT"] + rng.choice([1, 5, cur["lowT"]])
+    elif k == "highT":
+        c = [x for x in [1, cur["highT"] + 1, max(1, cur["highT"] - 1), max(1, cur["lowT"] // 2), cur["lowT"] - 1] if x != cur["highT"] and 0 < x < cur["lowT"]]
+        if not c:
+            k = "same"
+        else:
+            new["highT"] = rng.choice(c)
+    elif k == "lowM":
+        c = [x for x in [1, max(1, cur["lowM"] // 2), cur["lowM"] + 1, cur["highM"] - 1, (cur["lowM"] + cur["highM"]) // 2] if x != cur["lowM"] and 0 < x < cur["highM"]]
+        if not c:
+            k = "same"
+        else:
+            new["lowM"] = rng.choice(c)
+    elif k == "highM":
+        c = [x for x in [cur["highM"] * 2, cur["highM"] + 1, cur["highM"] + 1000, cur["highM"] - 1, (cur["lowM"] + cur["highM"]) // 2 + 1] if x != cur["highM"] and x > cur["lowM"]]
+        new["highM"] = rng.choice(c)
+    elif k == "iv":
+        new["iv"] = rng.choice([x for x in [0, 500, 1000, 2000, 5000, 10000] if x != cur["iv"]])
+    elif k == "invalid":
+        ops.append(rng.choice([f"load ma {cur['lowT']} {cur['lowT']} {cur['lowM']} {cur['highM']} {cur['iv']}",
+                               f"load ma {cur['lowT']} {cur['highT']} {cur['highM']} {cur['highM']} {cur['iv']}"]))
+        ops.append(f"req {rng.choice([1, 30])} 1")
+        k = "invalid"
+    cur.update(new)
+    ops.append(f"load ma {cur['lowT']} {cur['highT']} {cur['lowM']} {cur['highM']} {cur['iv']}")
+    return "reload-" + k
+
+
+def demand(rng, ops, now, cur, secs_hint, reloads):
+    """append demand phases to ops (with rule reloads between them), return (now, kinds)"""
     kinds = []
-    N = int(T) + rng.choice([1, 2, 5])
-    N = min(N, 3000)
     nph = rng.randint(2, 5)
     for _ in range(nph):
+        if kinds and rng.random() < reloads:
+            kinds.append(reload_wu(rng, ops, cur))
+        T = cur["T"]
+        N = min(int(T) + rng.choice([1, 2, 5]), 3000)
         k = rng.choice(["sat", "sat", "sat", "stream", "steady", "idle", "longidle", "partial"])
         kinds.append(k)
         if k == "sat":
@@ -109,7 +189,8 @@ def gen_case(rng, cid, t0):
         p = rng.choice([1, 1, 2, 3, 5, 5, 10, 10, 20, 30, 60])
         ops.append(f"load wu {fb(T)} {p} {cf} {iv}")
         tags += ["wu", f"T={T}", f"p={p}", f"cf={cf}", f"iv={iv}"]
-        now, kinds = demand(rng, ops, now, T, min(2 * p + 6, 45), False)
+        cur = {"T": T, "p": p, "cf": cf, "iv": iv}
+        now, kinds = demand(rng, ops, now, cur, min(2 * p + 6, 45), 0.3 if rng.random() < 0.5 else 0.0)
         tags += kinds
     elif r < 0.94:
         lowT = rng.choice([2, 5, 10, 50, 100, 1000, rng.randint(2, 500)])
@@ -118,7 +199,12 @@ def gen_case(rng, cid, t0):
         highM = lowM + rng.choice([1, 2, 10, 1000, 1 << 20, rng.randint(1, 10 ** 6)])
         ops.append(f"load ma {lowT} {highT} {lowM} {highM} {iv}")
         tags += ["ma", f"lowT={lowT}", f"highT={highT}", f"iv={iv}"]
+        cur = {"lowT": lowT, "highT": highT, "lowM": lowM, "highM": highM, "iv": iv}
+        reloads = 0.25 if rng.random() < 0.6 else 0.0
         for _ in range(rng.randint(3, 14)):
+            if rng.random() < reloads:
+                tags.append(reload_ma(rng, ops, cur))
+            lowT, lowM, highM = cur["lowT"], cur["lowM"], cur["highM"]
             m = rng.choice([-1, 0, 1, lowM - 1, lowM, lowM + 1, (lowM + highM) // 2, highM - 1, highM, highM + 1, 2 * highM,
                             rng.randint(lowM, highM), rng.randint(lowM, highM)])
             ops.append(f"mem {m}")
@@ -244,9 +330,10 @@ def densify(ops, rng):
 
 
 def nontrivial(case, impl):
-    load = next((l for l in impl if l.startswith("load ")), None)
-    if load is None or not load.endswith("=> ok 1"):
+    loads = [l for l in impl if l.startswith("load ")]
+    if not loads or not any(l.endswith("=> ok 1") for l in loads):
         return None
+    load = " ; ".join(l.split(" => ")[0] for l in loads)
     partial = False
     seen = {}
     varied = False
@@ -261,7 +348,7 @@ def nontrivial(case, impl):
                 varied = True
             seen[(t[1], t[2])] = k
     if partial or varied:
-        return hash((load.split(" => ")[0], tuple(x for x in case.tags if x in ("sat", "stream", "steady", "idle", "longidle", "partial", "preload", "mem-sweep"))))
+        return hash((load, tuple(x for x in case.tags if x in ("sat", "stream", "steady", "idle", "longidle", "partial", "preload", "mem-sweep"))))
     return None
 
 
